@@ -178,8 +178,11 @@ fn check_bytes(bytes: &[u8], st: &mut Stats) -> Result<bool, String> {
             let _ = r;
         });
     }
+    #[cfg(feature = "builtin")]
     g!("k256 decode_public", <k256::ecdsa::SigningKey as EnrKeyUnambiguous>::decode_public(bytes));
+    #[cfg(feature = "builtin")]
     g!("libsecp decode_public", <crate::keys::LibsecpKey as EnrKeyUnambiguous>::decode_public(bytes));
+    #[cfg(feature = "builtin")]
     g!("ed25519 decode_public", <ed25519_dalek::SigningKey as EnrKeyUnambiguous>::decode_public(bytes));
     if let Ok((true, h, p)) = crate::refmodel::rlp::header_at(bytes) {
         if h + p <= bytes.len() {
@@ -188,8 +191,10 @@ fn check_bytes(bytes: &[u8], st: &mut Stats) -> Result<bool, String> {
     }
     g!("NodeId::parse", NodeId::parse(bytes));
     let mut b = bytes.to_vec();
+    #[cfg(feature = "builtin")]
     g!("CombinedKey::secp256k1_from_bytes", enr::CombinedKey::secp256k1_from_bytes(&mut b));
     let mut b = bytes.to_vec();
+    #[cfg(feature = "builtin")]
     g!("CombinedKey::ed25519_from_bytes", enr::CombinedKey::ed25519_from_bytes(&mut b));
     Ok(got_past_header)
 }
